@@ -29,6 +29,14 @@ impl Report {
         let root = verif_root();
         let _ = std::fs::create_dir_all(root.join("evidence"));
         let _ = std::fs::create_dir_all(root.join("replays"));
+        // replays of earlier runs of this property are stale
+        if let Ok(rd) = std::fs::read_dir(root.join("replays")) {
+            for e in rd.flatten() {
+                if e.file_name().to_string_lossy().starts_with(&format!("{}-", self.property)) {
+                    let _ = std::fs::remove_file(e.path());
+                }
+            }
+        }
         let mut replay_paths = Vec::new();
         for (i, (content, desc)) in self.violations.iter().enumerate() {
             let path = root.join("replays").join(format!("{}-{}.json", self.property, i));
